@@ -58,3 +58,6 @@ open Pandora.C14 Pandora.Interp
 #print axioms Pandora.C14KernelsStep.mccnn_step_generated
 #print axioms Pandora.C14KernelsStep.sgm_step_generated
 #print axioms Pandora.C14KernelsStep.attrs_source
+#print axioms Pandora.C14KernelsStep.spec_congr
+#print axioms Pandora.C14KernelsStep.mccnn_step_spec
+#print axioms Pandora.C14KernelsStep.sgm_step_spec
